@@ -314,7 +314,7 @@ def rand_singlestep(rng, doc):
     k = 0
     while rng.random() < 0.4 and k < 2:
         if rng.random() < 0.5:
-            step += '[%s]' % rng.choice(['1', '2', '3', 'position()=2', 'last()', '1.0', '2 ', 'true()', '@n', '1=1'])
+            step += '[%s]' % rng.choice(['1', '2', '3', '1', '2', '1.0', '2 ', '0', '2.5', 'true()', '@n', '1=1', '$n'])
         else:
             step += '[%s]' % G.rand_pred(rng, G.FULL, 2, not attr_axis)
         k += 1
